@@ -4,9 +4,14 @@
 //! `std`'s B-tree is environment, not Echo logic, and its node-splitting pointer
 //! structure is out of reach for a bounded model checker. Under this feature the
 //! ordered maps/sets held by the scheduler, footprints, footprint guard, graph
-//! store and warp state are replaced by a sorted `Vec` with linear search that
-//! honours the same documented contract: unique keys, ascending-key iteration,
-//! `insert` returns the previous value, set semantics for [`BTreeSet`].
+//! store and warp state are replaced by a sorted, fixed-capacity slot array with
+//! linear search that honours the same documented contract: unique keys,
+//! ascending-key iteration, `insert` returns the previous value, set semantics
+//! for [`BTreeSet`]. Slots are moved element by element (no `Vec` growth, no
+//! `memmove`), which keeps every entry individually addressable for the solver.
+//! Exceeding [`CAP`] entries panics with a message containing
+//! `verif_flat capacity`; that is a bound of the verification harness, not a
+//! property of Echo.
 //!
 //! Nothing in this file is compiled unless the feature is enabled.
 #![allow(missing_docs, clippy::all, clippy::pedantic, clippy::nursery)]
@@ -14,15 +19,59 @@
 use core::borrow::Borrow;
 use core::cmp::Ordering;
 
-/// Sorted-`Vec` stand-in for `std::collections::BTreeMap`.
+/// Maximum number of entries per container in the model.
+pub const CAP: usize = 6;
+
+fn empty_slots<T>() -> [Option<T>; CAP] {
+    core::array::from_fn(|_| None)
+}
+
+fn slot<T>(s: &Option<T>) -> &T {
+    match s {
+        Some(v) => v,
+        None => unreachable!("verif_flat: live slot is empty"),
+    }
+}
+
+fn slot_mut<T>(s: &mut Option<T>) -> &mut T {
+    match s {
+        Some(v) => v,
+        None => unreachable!("verif_flat: live slot is empty"),
+    }
+}
+
+/// Opens a hole at `pos` by moving `slots[pos..len]` one to the right.
+fn shift_right<T>(slots: &mut [Option<T>; CAP], len: usize, pos: usize) {
+    assert!(len < CAP, "verif_flat capacity exceeded (harness bound, not an Echo failure)");
+    let mut j = len;
+    while j > pos {
+        slots[j] = slots[j - 1].take();
+        j -= 1;
+    }
+}
+
+/// Closes the hole at `pos` by moving `slots[pos+1..len]` one to the left.
+fn shift_left<T>(slots: &mut [Option<T>; CAP], len: usize, pos: usize) {
+    let mut j = pos;
+    while j + 1 < len {
+        slots[j] = slots[j + 1].take();
+        j += 1;
+    }
+    if len > 0 {
+        slots[len - 1] = None;
+    }
+}
+
+/// Sorted slot-array stand-in for `std::collections::BTreeMap`.
 #[derive(Debug, Clone, PartialEq, Eq, PartialOrd, Ord, Hash)]
 pub struct BTreeMap<K, V> {
-    items: Vec<(K, V)>,
+    items: [Option<(K, V)>; CAP],
+    len: usize,
 }
 
 impl<K, V> Default for BTreeMap<K, V> {
     fn default() -> Self {
-        Self { items: Vec::new() }
+        Self::new()
     }
 }
 
@@ -35,13 +84,16 @@ pub struct Entry<'a, K, V> {
 
 impl<'a, K: Ord, V> Entry<'a, K, V> {
     pub fn or_insert_with<F: FnOnce() -> V>(self, f: F) -> &'a mut V {
-        match self.pos {
-            Ok(i) => &mut self.map.items[i].1,
+        let i = match self.pos {
+            Ok(i) => i,
             Err(i) => {
-                self.map.items.insert(i, (self.key, f()));
-                &mut self.map.items[i].1
+                shift_right(&mut self.map.items, self.map.len, i);
+                self.map.items[i] = Some((self.key, f()));
+                self.map.len += 1;
+                i
             }
-        }
+        };
+        &mut slot_mut(&mut self.map.items[i]).1
     }
     pub fn or_insert(self, v: V) -> &'a mut V {
         self.or_insert_with(|| v)
@@ -54,64 +106,132 @@ impl<'a, K: Ord, V> Entry<'a, K, V> {
     }
     pub fn and_modify<F: FnOnce(&mut V)>(self, f: F) -> Self {
         if let Ok(i) = self.pos {
-            f(&mut self.map.items[i].1);
+            f(&mut slot_mut(&mut self.map.items[i]).1);
         }
         self
     }
 }
 
+/// Borrowing iterator over the live slots of a map, in ascending key order.
+pub struct Iter<'a, K, V> {
+    items: &'a [Option<(K, V)>],
+}
+
+impl<K, V> Clone for Iter<'_, K, V> {
+    fn clone(&self) -> Self {
+        Self { items: self.items }
+    }
+}
+
+impl<'a, K, V> Iterator for Iter<'a, K, V> {
+    type Item = (&'a K, &'a V);
+    fn next(&mut self) -> Option<Self::Item> {
+        let (first, rest) = self.items.split_first()?;
+        self.items = rest;
+        let e = slot(first);
+        Some((&e.0, &e.1))
+    }
+    fn size_hint(&self) -> (usize, Option<usize>) {
+        (self.items.len(), Some(self.items.len()))
+    }
+}
+
+impl<'a, K, V> DoubleEndedIterator for Iter<'a, K, V> {
+    fn next_back(&mut self) -> Option<Self::Item> {
+        let (last, rest) = self.items.split_last()?;
+        self.items = rest;
+        let e = slot(last);
+        Some((&e.0, &e.1))
+    }
+}
+
+impl<'a, K, V> ExactSizeIterator for Iter<'a, K, V> {}
+
+/// Owning iterator over the live slots of a map.
+pub struct IntoIter<K, V> {
+    items: [Option<(K, V)>; CAP],
+    next: usize,
+    len: usize,
+}
+
+impl<K, V> Iterator for IntoIter<K, V> {
+    type Item = (K, V);
+    fn next(&mut self) -> Option<(K, V)> {
+        if self.next >= self.len {
+            return None;
+        }
+        let e = self.items[self.next].take();
+        self.next += 1;
+        e
+    }
+}
+
 impl<K, V> BTreeMap<K, V> {
-    pub const fn new() -> Self {
-        Self { items: Vec::new() }
+    pub fn new() -> Self {
+        Self {
+            items: empty_slots(),
+            len: 0,
+        }
     }
     pub fn len(&self) -> usize {
-        self.items.len()
+        self.len
     }
     pub fn is_empty(&self) -> bool {
-        self.items.is_empty()
+        self.len == 0
     }
     pub fn clear(&mut self) {
-        self.items.clear();
+        let mut i = 0;
+        while i < self.len {
+            self.items[i] = None;
+            i += 1;
+        }
+        self.len = 0;
     }
-    pub fn iter(&self) -> impl DoubleEndedIterator<Item = (&K, &V)> + ExactSizeIterator + Clone {
-        self.items.iter().map(|(k, v)| (k, v))
+    pub fn iter(&self) -> Iter<'_, K, V> {
+        Iter {
+            items: &self.items[..self.len],
+        }
     }
-    pub fn iter_mut(&mut self) -> impl DoubleEndedIterator<Item = (&K, &mut V)> {
-        self.items.iter_mut().map(|(k, v)| (&*k, v))
+    pub fn iter_mut(&mut self) -> impl Iterator<Item = (&K, &mut V)> {
+        let len = self.len;
+        self.items[..len].iter_mut().map(|s| {
+            let e = slot_mut(s);
+            (&e.0, &mut e.1)
+        })
     }
     pub fn keys(&self) -> impl DoubleEndedIterator<Item = &K> + ExactSizeIterator + Clone {
-        self.items.iter().map(|(k, _)| k)
+        self.iter().map(|(k, _)| k)
     }
     pub fn values(&self) -> impl DoubleEndedIterator<Item = &V> + ExactSizeIterator + Clone {
-        self.items.iter().map(|(_, v)| v)
+        self.iter().map(|(_, v)| v)
     }
-    pub fn values_mut(&mut self) -> impl DoubleEndedIterator<Item = &mut V> {
-        self.items.iter_mut().map(|(_, v)| v)
+    pub fn values_mut(&mut self) -> impl Iterator<Item = &mut V> {
+        self.iter_mut().map(|(_, v)| v)
     }
-    pub fn into_values(self) -> impl DoubleEndedIterator<Item = V> {
-        self.items.into_iter().map(|(_, v)| v)
+    pub fn into_values(self) -> impl Iterator<Item = V> {
+        self.into_iter().map(|(_, v)| v)
     }
-    pub fn into_keys(self) -> impl DoubleEndedIterator<Item = K> {
-        self.items.into_iter().map(|(k, _)| k)
+    pub fn into_keys(self) -> impl Iterator<Item = K> {
+        self.into_iter().map(|(k, _)| k)
     }
     pub fn first_key_value(&self) -> Option<(&K, &V)> {
-        self.items.first().map(|(k, v)| (k, v))
+        self.iter().next()
     }
     pub fn last_key_value(&self) -> Option<(&K, &V)> {
-        self.items.last().map(|(k, v)| (k, v))
+        self.iter().next_back()
     }
 }
 
 impl<K: Ord, V> BTreeMap<K, V> {
-    /// `Ok(i)` when `items[i].0 == key`, otherwise `Err(i)` with the insertion point.
+    /// `Ok(i)` when slot `i` holds `key`, otherwise `Err(i)` with the insertion point.
     fn find<Q>(&self, key: &Q) -> Result<usize, usize>
     where
         K: Borrow<Q>,
         Q: Ord + ?Sized,
     {
         let mut i = 0;
-        while i < self.items.len() {
-            match self.items[i].0.borrow().cmp(key) {
+        while i < self.len {
+            match slot(&self.items[i]).0.borrow().cmp(key) {
                 Ordering::Less => i += 1,
                 Ordering::Equal => return Ok(i),
                 Ordering::Greater => return Err(i),
@@ -125,7 +245,7 @@ impl<K: Ord, V> BTreeMap<K, V> {
         Q: Ord + ?Sized,
     {
         match self.find(key) {
-            Ok(i) => Some(&self.items[i].1),
+            Ok(i) => Some(&slot(&self.items[i]).1),
             Err(_) => None,
         }
     }
@@ -135,7 +255,7 @@ impl<K: Ord, V> BTreeMap<K, V> {
         Q: Ord + ?Sized,
     {
         match self.find(key) {
-            Ok(i) => Some(&mut self.items[i].1),
+            Ok(i) => Some(&mut slot_mut(&mut self.items[i]).1),
             Err(_) => None,
         }
     }
@@ -145,7 +265,10 @@ impl<K: Ord, V> BTreeMap<K, V> {
         Q: Ord + ?Sized,
     {
         match self.find(key) {
-            Ok(i) => Some((&self.items[i].0, &self.items[i].1)),
+            Ok(i) => {
+                let e = slot(&self.items[i]);
+                Some((&e.0, &e.1))
+            }
             Err(_) => None,
         }
     }
@@ -158,9 +281,11 @@ impl<K: Ord, V> BTreeMap<K, V> {
     }
     pub fn insert(&mut self, key: K, value: V) -> Option<V> {
         match self.find(&key) {
-            Ok(i) => Some(core::mem::replace(&mut self.items[i].1, value)),
+            Ok(i) => Some(core::mem::replace(&mut slot_mut(&mut self.items[i]).1, value)),
             Err(i) => {
-                self.items.insert(i, (key, value));
+                shift_right(&mut self.items, self.len, i);
+                self.items[i] = Some((key, value));
+                self.len += 1;
                 None
             }
         }
@@ -171,7 +296,12 @@ impl<K: Ord, V> BTreeMap<K, V> {
         Q: Ord + ?Sized,
     {
         match self.find(key) {
-            Ok(i) => Some(self.items.remove(i).1),
+            Ok(i) => {
+                let e = self.items[i].take();
+                shift_left(&mut self.items, self.len, i);
+                self.len -= 1;
+                e.map(|(_, v)| v)
+            }
             Err(_) => None,
         }
     }
@@ -180,7 +310,20 @@ impl<K: Ord, V> BTreeMap<K, V> {
         Entry { map: self, key, pos }
     }
     pub fn retain<F: FnMut(&K, &mut V) -> bool>(&mut self, mut f: F) {
-        self.items.retain_mut(|(k, v)| f(k, v));
+        let mut i = 0;
+        while i < self.len {
+            let keep = {
+                let e = slot_mut(&mut self.items[i]);
+                f(&e.0, &mut e.1)
+            };
+            if keep {
+                i += 1;
+            } else {
+                self.items[i] = None;
+                shift_left(&mut self.items, self.len, i);
+                self.len -= 1;
+            }
+        }
     }
     pub fn extend<I: IntoIterator<Item = (K, V)>>(&mut self, iter: I) {
         for (k, v) in iter {
@@ -205,20 +348,21 @@ impl<K: Ord, V> Extend<(K, V)> for BTreeMap<K, V> {
 
 impl<'a, K, V> IntoIterator for &'a BTreeMap<K, V> {
     type Item = (&'a K, &'a V);
-    type IntoIter = core::iter::Map<core::slice::Iter<'a, (K, V)>, fn(&'a (K, V)) -> (&'a K, &'a V)>;
+    type IntoIter = Iter<'a, K, V>;
     fn into_iter(self) -> Self::IntoIter {
-        fn split<K, V>(e: &(K, V)) -> (&K, &V) {
-            (&e.0, &e.1)
-        }
-        self.items.iter().map(split::<K, V> as fn(&'a (K, V)) -> (&'a K, &'a V))
+        self.iter()
     }
 }
 
 impl<K, V> IntoIterator for BTreeMap<K, V> {
     type Item = (K, V);
-    type IntoIter = std::vec::IntoIter<(K, V)>;
+    type IntoIter = IntoIter<K, V>;
     fn into_iter(self) -> Self::IntoIter {
-        self.items.into_iter()
+        IntoIter {
+            items: self.items,
+            next: 0,
+            len: self.len,
+        }
     }
 }
 
@@ -235,39 +379,102 @@ where
     }
 }
 
-/// Sorted-`Vec` stand-in for `std::collections::BTreeSet`.
+/// Sorted slot-array stand-in for `std::collections::BTreeSet`.
 #[derive(Debug, Clone, PartialEq, Eq, PartialOrd, Ord, Hash)]
 pub struct BTreeSet<T> {
-    items: Vec<T>,
+    items: [Option<T>; CAP],
+    len: usize,
 }
 
 impl<T> Default for BTreeSet<T> {
     fn default() -> Self {
-        Self { items: Vec::new() }
+        Self::new()
+    }
+}
+
+/// Borrowing iterator over the live slots of a set, ascending.
+pub struct SetIter<'a, T> {
+    items: &'a [Option<T>],
+}
+
+impl<T> Clone for SetIter<'_, T> {
+    fn clone(&self) -> Self {
+        Self { items: self.items }
+    }
+}
+
+impl<'a, T> Iterator for SetIter<'a, T> {
+    type Item = &'a T;
+    fn next(&mut self) -> Option<&'a T> {
+        let (first, rest) = self.items.split_first()?;
+        self.items = rest;
+        Some(slot(first))
+    }
+    fn size_hint(&self) -> (usize, Option<usize>) {
+        (self.items.len(), Some(self.items.len()))
+    }
+}
+
+impl<'a, T> DoubleEndedIterator for SetIter<'a, T> {
+    fn next_back(&mut self) -> Option<&'a T> {
+        let (last, rest) = self.items.split_last()?;
+        self.items = rest;
+        Some(slot(last))
+    }
+}
+
+impl<'a, T> ExactSizeIterator for SetIter<'a, T> {}
+
+/// Owning iterator over the live slots of a set.
+pub struct SetIntoIter<T> {
+    items: [Option<T>; CAP],
+    next: usize,
+    len: usize,
+}
+
+impl<T> Iterator for SetIntoIter<T> {
+    type Item = T;
+    fn next(&mut self) -> Option<T> {
+        if self.next >= self.len {
+            return None;
+        }
+        let e = self.items[self.next].take();
+        self.next += 1;
+        e
     }
 }
 
 impl<T> BTreeSet<T> {
-    pub const fn new() -> Self {
-        Self { items: Vec::new() }
+    pub fn new() -> Self {
+        Self {
+            items: empty_slots(),
+            len: 0,
+        }
     }
     pub fn len(&self) -> usize {
-        self.items.len()
+        self.len
     }
     pub fn is_empty(&self) -> bool {
-        self.items.is_empty()
+        self.len == 0
     }
     pub fn clear(&mut self) {
-        self.items.clear();
+        let mut i = 0;
+        while i < self.len {
+            self.items[i] = None;
+            i += 1;
+        }
+        self.len = 0;
     }
-    pub fn iter(&self) -> core::slice::Iter<'_, T> {
-        self.items.iter()
+    pub fn iter(&self) -> SetIter<'_, T> {
+        SetIter {
+            items: &self.items[..self.len],
+        }
     }
     pub fn first(&self) -> Option<&T> {
-        self.items.first()
+        self.iter().next()
     }
     pub fn last(&self) -> Option<&T> {
-        self.items.last()
+        self.iter().next_back()
     }
 }
 
@@ -278,8 +485,8 @@ impl<T: Ord> BTreeSet<T> {
         Q: Ord + ?Sized,
     {
         let mut i = 0;
-        while i < self.items.len() {
-            match self.items[i].borrow().cmp(key) {
+        while i < self.len {
+            match slot(&self.items[i]).borrow().cmp(key) {
                 Ordering::Less => i += 1,
                 Ordering::Equal => return Ok(i),
                 Ordering::Greater => return Err(i),
@@ -298,7 +505,9 @@ impl<T: Ord> BTreeSet<T> {
         match self.find(&value) {
             Ok(_) => false,
             Err(i) => {
-                self.items.insert(i, value);
+                shift_right(&mut self.items, self.len, i);
+                self.items[i] = Some(value);
+                self.len += 1;
                 true
             }
         }
@@ -310,41 +519,30 @@ impl<T: Ord> BTreeSet<T> {
     {
         match self.find(key) {
             Ok(i) => {
-                self.items.remove(i);
+                self.items[i] = None;
+                shift_left(&mut self.items, self.len, i);
+                self.len -= 1;
                 true
             }
             Err(_) => false,
         }
     }
     pub fn is_subset(&self, other: &Self) -> bool {
-        self.items.iter().all(|x| other.contains(x))
+        self.iter().all(|x| other.contains(x))
     }
     pub fn is_disjoint(&self, other: &Self) -> bool {
-        !self.items.iter().any(|x| other.contains(x))
-    }
-    pub fn retain<F: FnMut(&T) -> bool>(&mut self, f: F) {
-        self.items.retain(f);
+        !self.iter().any(|x| other.contains(x))
     }
     pub fn extend<I: IntoIterator<Item = T>>(&mut self, iter: I) {
         for x in iter {
             self.insert(x);
         }
     }
-    pub fn union<'a>(&'a self, other: &'a Self) -> impl Iterator<Item = &'a T> {
-        let mut out: Vec<&'a T> = self.items.iter().collect();
-        for x in &other.items {
-            if !self.contains(x) {
-                out.push(x);
-            }
-        }
-        out.sort();
-        out.into_iter()
-    }
     pub fn intersection<'a>(&'a self, other: &'a Self) -> impl Iterator<Item = &'a T> {
-        self.items.iter().filter(move |x| other.contains(*x))
+        self.iter().filter(move |x| other.contains(*x))
     }
     pub fn difference<'a>(&'a self, other: &'a Self) -> impl Iterator<Item = &'a T> {
-        self.items.iter().filter(move |x| !other.contains(*x))
+        self.iter().filter(move |x| !other.contains(*x))
     }
 }
 
@@ -364,16 +562,20 @@ impl<T: Ord> Extend<T> for BTreeSet<T> {
 
 impl<'a, T> IntoIterator for &'a BTreeSet<T> {
     type Item = &'a T;
-    type IntoIter = core::slice::Iter<'a, T>;
+    type IntoIter = SetIter<'a, T>;
     fn into_iter(self) -> Self::IntoIter {
-        self.items.iter()
+        self.iter()
     }
 }
 
 impl<T> IntoIterator for BTreeSet<T> {
     type Item = T;
-    type IntoIter = std::vec::IntoIter<T>;
+    type IntoIter = SetIntoIter<T>;
     fn into_iter(self) -> Self::IntoIter {
-        self.items.into_iter()
+        SetIntoIter {
+            items: self.items,
+            next: 0,
+            len: self.len,
+        }
     }
 }
